@@ -33,6 +33,7 @@ package types
 //@ func (k TSSKeeper) MustGetGroup
 //@ trusted
 //@ may_panic
+//@ ensures result == tssGroup(Other, groupID)
 //@ spec tssSigning(o OtherState, id Int) tsstypes.Signing uninterpreted
 //@ func (k TSSKeeper) MustGetSigning
 //@ trusted
